@@ -174,6 +174,8 @@ def new_setup(ctx):
 
     def validation_fn(ctx_, args, kwargs):
         ctx_.event("validate", args[1])
+        # precondition of validation_fn(cls, v): first the class, then the value to validate
+        ctx_.oblige("pre", "validation_fn-is-given-(the class, the value)", len(args) == 2 and args[0] is cls and args[1] is v)
         if ctx_.choose(2, "validation_fn", [acc, z3.Not(acc)]) == 1:
             raise PyRaise(ExcVal("ValueError", origin="validation_fn"))
         return None
